@@ -255,9 +255,9 @@ static int print_log(parsec_taskpool_t *tp, int with_keys) {
             parsec_key_t key = tc2->make_key(tp, as);
             buf[0] = 0;
             tc2->key_functions->key_print(buf, sizeof(buf), key, tp);
-            printf(" ; K %" PRIu64 " ; KP %s\n", (uint64_t)key, buf);
+            printf(" ; K %" PRIu64 " ; PR %d ; KP %s\n", (uint64_t)key, (int)e->prio, buf);
         } else
-            printf(" ; K 0 ; KP ?\n");
+            printf(" ; K 0 ; PR %d ; KP ?\n", (int)e->prio);
         if (!e->again) completed++;
     }
     return completed;
@@ -298,6 +298,12 @@ static int run_config(int cores, int pargc, char **pargv, int reps) {
     }
 
     int completed = print_log(tp, 1);
+    for (int k = 0; k < ptg_nsu && k < PTG_MAXLOG; k++) {      /* C16: creation order of the startup tasks (only with PTG_RT_TRACE_STARTUP) */
+        const parsec_task_class_t *tc = ptg_su[k].tc;
+        printf("SU %s P", tc->name);
+        for (int i = 0; i < tc->nb_parameters; i++) printf(" %d", ptg_su[k].locals[tc->params[i]->context_index]);
+        printf("\n");
+    }
     printf("NBTASKS %d\n", completed);
     printf("NBVP %d\n", parsec_vpmap_get_nb_vp());
     printf("D");
